@@ -184,6 +184,9 @@ class DefaultDeploymentManager(DeploymentManager):
         if deployment_name in dict(self.deployments_map):
             event = self.events_map[deployment_name]
             await event.wait()
+            # If the deployment failed in the meantime, there is nothing to undeploy
+            if deployment_name not in self.deployments_map:
+                return
             # Remove the deployment from the dependency graph
             self.dependency_graph[deployment_name].discard(deployment_name)
             # If there are no more inner deployments, undeploy the environment and clear the related data structures
